@@ -19,6 +19,35 @@ theorem certified_comments (root : Node) (d : Twin.Doc) (h : commentsCertified r
   rw [← h.2]
   exact d.emits h.1 u .cmt m xs hl
 
+theorem certified_tokensR (cfg : PConfig) (root : Node) (d : Twin.Doc) (h : tokensCertifiedR cfg root d = true) :
+    ∀ u m xs, Lay m (d.fam u) xs → tokText xs = (specToks (reorderTree cfg (prepare root))).toList := by
+  simp only [tokensCertifiedR, Bool.and_eq_true, beq_iff_eq] at h
+  intro u m xs hl
+  rw [← h.2]
+  exact d.emits h.1 u .tok m xs hl
+
+theorem certified_literalsR (cfg : PConfig) (root : Node) (d : Twin.Doc) (h : literalsCertifiedR cfg root d = true) :
+    ∀ u m xs, Lay m (d.fam u) xs → litText xs = (specLit (reorderTree cfg (prepare root))).toList := by
+  simp only [literalsCertifiedR, Bool.and_eq_true, beq_iff_eq] at h
+  intro u m xs hl
+  rw [← h.2]
+  exact d.emits h.1 u .lit m xs hl
+
+mutual
+/-- With reordering off the reordered tree is the tree itself. -/
+theorem reorderTree_off (cfg : PConfig) (h : cfg.reorder = false) : ∀ t : ANode, reorderTree cfg t = t
+  | .leaf _ _ _ => rfl
+  | .inner k cs a => by
+    simp only [reorderTree, h, Bool.and_false, Bool.false_and]
+    rw [reorderTreeL_off cfg h cs]
+theorem reorderTreeL_off (cfg : PConfig) (h : cfg.reorder = false) : ∀ ts : List ANode, reorderTreeL cfg false ts = ts
+  | [] => rfl
+  | c :: cs => by
+    simp only [reorderTreeL, Bool.false_and]
+    rw [reorderTree_off cfg h c, reorderTreeL_off cfg h cs]
+    rfl
+end
+
 theorem certified_prose (root : Node) (d : Twin.Doc) (h : proseCertified root d = true) :
     ∀ u m xs, Lay m (d.fam u) xs → proseText xs = (specProse (prepare root)).toList := by
   simp only [proseCertified, Bool.and_eq_true, beq_iff_eq] at h
